@@ -270,6 +270,7 @@ func H_Block() {
 			}
 			// allocations: each bidder receives the sum of their bids' quantities, the auctioneer the rest
 			totalAlloc := nd.ZOf(0)
+			totalGot := nd.ZOf(0)
 			for u := 1; u <= sp.nUsers; u++ {
 				want := nd.ZOf(0)
 				for _, b := range st.bids {
@@ -278,10 +279,14 @@ func H_Block() {
 					}
 				}
 				totalAlloc = totalAlloc.Add(want)
-				nd.Assert("C02.fixed-bidder-receives-allocation", post.get(addr(user(u)), denomSell).Sub(pre.get(addr(user(u)), denomSell)).EQ(want))
-				nd.Assert("C05.fixed-allocation-within-request", want.LE(nd.ZInt(st.offered())))
+				got := post.get(addr(user(u)), denomSell).Sub(pre.get(addr(user(u)), denomSell))
+				totalGot = totalGot.Add(got)
+				nd.Assert("C02.fixed-bidder-receives-allocation", got.EQ(want))
+				nd.Assert("C05.fixed-bidder-receives-no-more-than-asked", got.LE(want))
+				nd.Assert("C06.accepted-bids-delivered-in-full-never-scaled", got.EQ(want))
 			}
-			nd.Assert("C05.total-distributed-within-supply", totalAlloc.LE(nd.ZInt(st.offered())))
+			nd.Assert("C05.total-distributed-within-supply", totalGot.LE(nd.ZInt(st.offered())))
+			nd.Assert("C06.never-oversells", totalGot.LE(nd.ZInt(st.offered())))
 			nd.Assert("C02.fixed-auctioneer-gets-unsold", post.get(auctioneer, denomSell).Sub(pre.get(auctioneer, denomSell)).EQ(pre.get(st.sellingAddr(), denomSell).Sub(totalAlloc)))
 		}
 	}
